@@ -11,6 +11,10 @@ X = 'feel/src/context.rs'
 V = 'feel/src/values.rs'
 P = ['C13']
 A = ['C13', 'C05']
+# expression builders: a temporary context left on (or missing from) the stack changes what the REST of the expression evaluates to (C01:
+# the result depends only on the expression text and the values bound to its free names)
+PE = ['C13', 'C01']
+AE = ['C13', 'C01', 'C05']
 PRE = 'broadcast use vstd::std_specs::btree::group_btree_axioms;\nproof { axiom_name_key(); }'
 R8 = ('RX', 'R8', r'self\.contexts\.borrow_mut\(\)', 'self.contexts', None)
 STACK_SAME = 'final(scope).contexts@ =~= old(scope).contexts@'
@@ -53,7 +57,7 @@ UNIT = {
         {'kind': 'fn', 'src': V, 'path': 'impl Values::fn new', 'key': 'purity::Values::new', 'props': P, 'auto_props': A, 'loops': 0},
         {'kind': 'fn', 'src': V, 'path': 'impl Values::fn as_vec', 'key': 'purity::Values::as_vec', 'props': P, 'auto_props': A, 'loops': 0, 'ret': 'r',
          'ensures': [('view', 'r@ == self.0@')]},
-        {'kind': 'fn', 'src': B, 'path': 'fn eval_function_positional', 'key': 'purity::eval_function_positional', 'props': P, 'auto_props': A, 'loops': 1, 'ret': 'r',
+        {'kind': 'fn', 'src': B, 'path': 'fn eval_function_positional', 'key': 'purity::eval_function_positional', 'props': PE, 'auto_props': AE, 'loops': 1, 'ret': 'r',
          'sig_rewrite': [(r'^(\s*)fn ', r'\1pub fn '), (r'scope: &Scope', 'scope: &mut Scope')],
          'rewrites': [('R3',), ('R1', 0), ('RX', 'R11', r'FeelContext::default\(\)', 'feel_context_default()', None)],
          'body_prefix': PRE,
@@ -64,7 +68,7 @@ UNIT = {
          'loop_specs': {0: {'invariant': [('scope_not_touched', 'scope.contexts@ == old(scope).contexts@'),
                                           ('bound_so_far', 'i <= parameters@.len() && i <= arguments@.len() && ctx.0@ =~= bind_pos(parameters@, arguments@, i as int)')],
                             'body_prefix': PRE}}},
-        {'kind': 'fn', 'src': B, 'path': 'fn eval_function_named', 'key': 'purity::eval_function_named', 'props': P, 'auto_props': A, 'loops': 1, 'ret': 'r',
+        {'kind': 'fn', 'src': B, 'path': 'fn eval_function_named', 'key': 'purity::eval_function_named', 'props': PE, 'auto_props': AE, 'loops': 1, 'ret': 'r',
          'sig_rewrite': [(r'^(\s*)fn ', r'\1pub fn '), (r'scope: &Scope', 'scope: &mut Scope')],
          'rewrites': [('R3',), ('RX', 'R2v', r'for \(parameter_name, parameter_type\) in parameters \{', 'for (parameter_name, parameter_type) in parameters.iter() {', 1),
                       ('RX', 'R11', r'FeelContext::default\(\)', 'feel_context_default()', None)],
@@ -78,7 +82,7 @@ UNIT = {
                                           ('seq', 'itp.seq() =~= parameters@.map_values(|c: (Name, FeelType)| &c)'),
                                           ('bound_so_far', 'ctx.0@ =~= bind_named(parameters@, map@, itp.index@ as int) && forall |j: int| 0 <= j < itp.index@ ==> map@.contains_key((#[trigger] parameters@[j]).0)')],
                             'body_prefix': PRE + '\nproof { assert(*parameter_name == parameters@[itp.index@ as int].0 && *parameter_type == parameters@[itp.index@ as int].1); }'}}},
-        {'kind': 'closure', 'src': B, 'path': 'fn build_filter', 'name': 'filter', 'key': 'purity::build_filter', 'props': P, 'auto_props': A, 'loops': 1, 'ret': 'r',
+        {'kind': 'closure', 'src': B, 'path': 'fn build_filter', 'name': 'filter', 'key': 'purity::build_filter', 'props': PE, 'auto_props': AE, 'loops': 1, 'ret': 'r',
          'lead_params': ['scope: &mut Scope'], 'extra_params': ['rhe: &Evaluator', 'name_item: Name'],
          'rewrites': [('R3',), ('RX', 'R8e', r'\b(lhe|rhe)\(scope\)', r'\1.call(scope)', 3),
                       ('RX', 'R11', r'FeelContext::default\(\)', 'feel_context_default()', None),
@@ -89,24 +93,24 @@ UNIT = {
          'ensures': [('caller_scope_untouched', STACK_SAME)],
          'loop_specs': {0: {'invariant': [('balanced_per_item', 'scope.contexts@ =~= old(scope).contexts@')]}}},
         {'kind': 'closure', 'src': I, 'path': 'impl ForExpressionEvaluator::fn evaluate', 'key': 'purity::ForExpressionEvaluator::evaluate#iteration',
-         'name': 'for_iteration', 'props': P, 'auto_props': A, 'loops': 0,
+         'name': 'for_iteration', 'props': PE, 'auto_props': AE, 'loops': 0,
          'closure_header': r'self\.feel_iterator\.run\(\|ctx\| \{',
          'signature': 'pub fn for_iteration(scope: &mut Scope, evaluator: &Evaluator, name_partial: &Name, results: &mut Vec<Value>, ctx: &FeelContext)',
          'rewrites': [('RX', 'R8e', r'\bevaluator\(scope\)', 'evaluator.call(scope)', None), ('RX', 'R4c', r'&self\.name_partial', 'name_partial', 1)],
          'ensures': [('caller_scope_untouched', STACK_SAME)]},
         {'kind': 'closure', 'src': I, 'path': 'impl SomeExpressionEvaluator::fn evaluate', 'key': 'purity::SomeExpressionEvaluator::evaluate#iteration',
-         'name': 'some_iteration', 'props': P, 'auto_props': A, 'loops': 0,
+         'name': 'some_iteration', 'props': PE, 'auto_props': AE, 'loops': 0,
          'closure_header': r'self\.feel_iterator\.run\(\|ctx\| \{',
          'signature': 'pub fn some_iteration(scope: &mut Scope, evaluator: &Evaluator, result: &mut bool, ctx: &FeelContext)',
          'rewrites': [('RX', 'R8e', r'\bevaluator\(scope\)', 'evaluator.call(scope)', None), ('RX', 'R4c', r'result = result \|\| value;', '*result = *result || value;', 1)],
          'ensures': [('caller_scope_untouched', STACK_SAME)]},
         {'kind': 'closure', 'src': I, 'path': 'impl EveryExpressionEvaluator::fn evaluate', 'key': 'purity::EveryExpressionEvaluator::evaluate#iteration',
-         'name': 'every_iteration', 'props': P, 'auto_props': A, 'loops': 0,
+         'name': 'every_iteration', 'props': PE, 'auto_props': AE, 'loops': 0,
          'closure_header': r'self\.feel_iterator\.run\(\|ctx\| \{',
          'signature': 'pub fn every_iteration(scope: &mut Scope, evaluator: &Evaluator, result: &mut bool, ctx: &FeelContext)',
          'rewrites': [('RX', 'R8e', r'\bevaluator\(scope\)', 'evaluator.call(scope)', None), ('RX', 'R4c', r'result = result && value;', '*result = *result && value;', 1)],
          'ensures': [('caller_scope_untouched', STACK_SAME)]},
-        {'kind': 'closure', 'src': B, 'path': 'fn build_context', 'name': 'context_literal', 'key': 'purity::build_context', 'props': P, 'auto_props': A, 'loops': 1, 'ret': 'r',
+        {'kind': 'closure', 'src': B, 'path': 'fn build_context', 'name': 'context_literal', 'key': 'purity::build_context', 'props': PE, 'auto_props': AE, 'loops': 1, 'ret': 'r',
          'lead_params': ['scope: &mut Scope'], 'extra_params': ['evaluators: &Vec<Evaluator>'],
          'rewrites': [('R3',), ('RX', 'R8e', r'\bevaluator\(scope\)', 'evaluator.call(scope)', None),
                       ('RX', 'R11', r'FeelContext::default\(\)', 'feel_context_default()', None),
@@ -135,7 +139,7 @@ UNIT = {
                       ('RX', 'R11', r'FeelContext::default\(\)', 'feel_context_default()', None)],
          'ensures': [('caller_scope_untouched', STACK_SAME)],
          'loop_specs': {0: {'invariant': [('scope_not_touched', 'scope.contexts@ == old(scope).contexts@')]}}},
-        {'kind': 'fn', 'src': B, 'path': 'fn eval_function_definition', 'key': 'purity::eval_function_definition', 'props': P, 'auto_props': A, 'loops': 0, 'ret': 'r',
+        {'kind': 'fn', 'src': B, 'path': 'fn eval_function_definition', 'key': 'purity::eval_function_definition', 'props': PE, 'auto_props': AE, 'loops': 0, 'ret': 'r',
          'sig_rewrite': [(r'^(\s*)fn ', r'\1pub fn '), (r'scope: &Scope', 'scope: &mut Scope')],
          'rewrites': [('R3',), ('RX', 'R8e', r'body\.evaluate\(scope\)', 'function_body_evaluate(body, scope)', 1)],
          'ensures': [('caller_scope_untouched', STACK_SAME), ('body_over_the_argument_context_then_coerced', 'r == call_result(old(scope).contexts@, *ctx, *body, result_type)', ['C01'])]},
